@@ -276,3 +276,5 @@ def run(ctx):
     boundaries.check_amounts(ctx, 'C14.RA', 'C14')
     from .. import errdisc
     errdisc.check(ctx, 'C14.RD', 'C14', 6)
+    from .. import boundaries as _b
+    _b.check_predicates(ctx, 'C14.RP', 'C14')
